@@ -58,6 +58,10 @@ def _join_and(ps):
 
 def model_arg(fn, a):
     a = norm(a)
+    if fn in (14, 15):
+        plain = lambda db: [[k, [e[0], k, e[1], e[2]]] for k, e in db]
+        srcs = [plain(x) for x in split_sources(e2e_norm(a[0]), a[1])]
+        return [srcs, a[2], a[3], norm(E2E_FIELDS)] if fn == 14 else [srcs, a[2]]
     if fn in (10, 11):
         a = [e2e_norm(a[0])] + a[1:]
     if fn == 12:
@@ -364,7 +368,7 @@ def all_wanted(ndb, cits):
     cs = set(S(c).lower() for c in cits)
     return '*' in cs or all(S(k).lower() in cs for k, e in ndb)
 
-def run_e2e(bib, cits, minx, style, bst_fields, letters, id_letter):
+def run_e2e(bib, cits, minx, style, bst_fields, letters, id_letter, bst_text=None, py_text=None):
     """(1) the real BibTeX parser + BST interpreter with the field-dumping style, (2) pybtex.format_from_string with a
     stock style and the plaintext backend; both read the file FILTERED by the citations (wanted_entries).
     From the rendered text: the entry is identified by its own token <id_letter><i>, values are tokens <letter><i>."""
@@ -378,7 +382,7 @@ def run_e2e(bib, cits, minx, style, bst_fields, letters, id_letter):
         script = _BST_CACHE.get(tuple(bst_fields))
         if script is None:
             script = _BST_CACHE[tuple(bst_fields)] = list(bst.parse_string(bst_source(bst_fields)))
-        out = Interpreter(Parser, None).run(script, list(cits), [io.StringIO(bib)], minx)
+        out = bst_text(script) if bst_text else Interpreter(Parser, None).run(script, list(cits), [io.StringIO(bib)], minx)
         lines = out.split('\n')
         n = len(bst_fields) + 1
         obs = []
@@ -386,7 +390,7 @@ def run_e2e(bib, cits, minx, style, bst_fields, letters, id_letter):
             obs.append([norm(lines[i]), [[] if l == '?' else [norm(l[1:-1])] for l in lines[i + 1:i + n]]])
         return obs
     def run_py():
-        text = pybtex.format_from_string(bib, style=style, citations=list(cits), output_backend='plaintext', min_crossrefs=minx)
+        text = py_text() if py_text else pybtex.format_from_string(bib, style=style, citations=list(cits), output_backend='plaintext', min_crossrefs=minx)
         obs = []
         for line in text.split('\n')[:-1]:
             assert re.match(r'\[\w+\] ', line), line
@@ -451,6 +455,86 @@ def impl_read_filtered(a):
         with errors.capture() as errs:
             wanted = [S(c) for c in a[1][0]] if a[1] else None
             bd = Parser(wanted_entries=wanted).parse_string(bib_text(ndb))
+            return [[[norm(k), norm(e.key), int(str(e.persons['author'][0])[1:])] for k, e in bd.entries.items()], len(errs)]
+    except (_Timeout, AssertionError):
+        raise
+    except Exception:
+        return [2]
+
+
+# ---- several sources ------------------------------------------------------------------------------
+def split_sources(ndb, cuts):
+    """the file's entries, in order, cut into consecutive sources at the given positions (a repeated position = an empty source)"""
+    pos = sorted(min(max(c, 0), len(ndb)) for c in cuts)
+    out, prev = [], 0
+    for c in pos + [len(ndb)]:
+        out.append(ndb[prev:c]); prev = c
+    return out
+
+MULTI_MODES = ['Interpreter.run([StringIO..]) / pybtex.format_from_strings', 'format_from_files([paths]) of both engines', 'make_bibliography(.aux with \\bibdata{a,b}) of both engines']
+
+def impl_e2e_multi(a):
+    """the chain distributed over several .bib sources, through the engines' multi-source entry points"""
+    import io, os, shutil, tempfile, pybtex, pybtex.bibtex
+    from pybtex.bibtex.interpreter import Interpreter
+    from pybtex.database.input.bibtex import Parser
+    ndb = e2e_norm(a[0])
+    srcs = [bib_text(x) for x in split_sources(ndb, a[1])]
+    cits = [S(c) for c in a[2]]
+    minx, style, mode = a[3], _style(a, 4), (a[5] % 3 if len(a) > 5 else 0)
+    tmp = None
+    try:
+        if mode == 0:
+            bst_text = lambda script: Interpreter(Parser, None).run(script, list(cits), [io.StringIO(x) for x in srcs], minx)
+            py_text = lambda: pybtex.format_from_strings(srcs, style=style, citations=list(cits), output_backend='plaintext', min_crossrefs=minx)
+        else:
+            tmp = tempfile.mkdtemp(prefix='c14_')
+            paths = []
+            for i, x in enumerate(srcs):
+                paths.append(os.path.join(tmp, 's%d.bib' % i))
+                with open(paths[-1], 'w') as f:
+                    f.write(x)
+            with open(os.path.join(tmp, 'dump.bst'), 'w') as f:
+                f.write(bst_source(E2E_FIELDS))
+            dump = os.path.join(tmp, 'dump')
+            if mode == 1:
+                bst_text = lambda script: pybtex.bibtex.format_from_files(paths, style=dump, citations=list(cits), min_crossrefs=minx)
+                py_text = lambda: pybtex.format_from_files(paths, style=style, citations=list(cits), output_backend='plaintext', min_crossrefs=minx)
+            else:
+                def aux(name):
+                    p = os.path.join(tmp, name + '.aux')
+                    with open(p, 'w') as f:
+                        f.write(''.join('\\citation{%s}\n' % c for c in cits))
+                        f.write('\\bibdata{%s}\n\\bibstyle{unsrt}\n' % ','.join(os.path.join(tmp, 's%d' % i) for i in range(len(srcs))))
+                    return p
+                def bst_text(script):
+                    pybtex.bibtex.make_bibliography(aux('b'), style=dump, min_crossrefs=minx)
+                    return open(os.path.join(tmp, 'b.bbl')).read()
+                def py_text():
+                    pybtex.make_bibliography(aux('p'), style=style, output_backend='plaintext', min_crossrefs=minx)
+                    return open(os.path.join(tmp, 'p.txt')).read()
+        return run_e2e(None, cits, minx, style, E2E_FIELDS, 'TYN', 'A', bst_text=bst_text, py_text=py_text)
+    finally:
+        if tmp:
+            shutil.rmtree(tmp, ignore_errors=True)
+
+def impl_read_multi(a):
+    """ONE Parser(wanted_entries=citations) over several sources: parse_files([StringIO..]) or parse_string per source"""
+    import io
+    from pybtex import errors
+    from pybtex.database.input.bibtex import Parser
+    ndb = e2e_norm(a[0])
+    srcs = [bib_text(x) for x in split_sources(ndb, a[1])]
+    try:
+        with errors.capture() as errs:
+            wanted = [S(c) for c in a[2][0]] if a[2] else None
+            parser = Parser(wanted_entries=wanted)
+            if len(a) > 3 and a[3] % 2:
+                for x in srcs:
+                    bd = parser.parse_string(x)
+                bd = parser.data
+            else:
+                bd = parser.parse_files([io.StringIO(x) for x in srcs])
             return [[[norm(k), norm(e.key), int(str(e.persons['author'][0])[1:])] for k, e in bd.entries.items()], len(errs)]
     except (_Timeout, AssertionError):
         raise
@@ -600,6 +684,8 @@ FUNCS = {
     10: ('end to end: .bib text -> BibTeX parser -> BST interpreter / pybtex.format_from_string(stock style, plaintext)', guarded(impl_e2e), ('T', DB_SCH, ('L', 'S'), 'I', 'N')),
     11: ('bibtex Parser(wanted_entries=citations).parse_string: the filtered database', guarded(impl_read_filtered), ('T', DB_SCH, ('O', ('L', 'S')))),
     12: ('end to end, person role author: BST field vs names() of the stock Python styles', guarded(impl_e2e_roles), ('T', DB_SCH, ('L', 'S'), 'I', 'N')),
+    14: ('end to end over several .bib sources (format_from_strings / format_from_files / make_bibliography with \\bibdata{a,b}), both engines', guarded(impl_e2e_multi), ('T', DB_SCH, ('L', 'N'), ('L', 'S'), 'I', 'N', 'N')),
+    15: ('one bibtex Parser(wanted_entries) over several sources (parse_files / repeated parse_string)', guarded(impl_read_multi), ('T', DB_SCH, ('L', 'N'), ('O', ('L', 'S')), 'N')),
     13: ('history of look-ups and edits on live Entry / BibliographyData objects', guarded(impl_history), ('T', DB_SCH, ('L', HOP_SCH))),
     9: ('Entry._find_field, every entry x every name', guarded(impl_find_all), ('T', DB_SCH, ('L', 'S'), 'B')),
 }
@@ -664,6 +750,12 @@ def cited_entries(ndb, table, cits):
 def oracle(fn, a, out):
     if not isinstance(out, list) or not out:
         return 'malformed implementation output %r' % (out,)
+    if fn == 14:      # several sources: exactly what is expected of their concatenation read as one source
+        m = oracle(10, [a[0], a[2], a[3], a[4] if len(a) > 4 else 0], out)
+        return m and ('sources %r via %s: ' % ([[S(k) for k, _ in x] for x in split_sources(e2e_norm(a[0]), a[1])], MULTI_MODES[a[5] % 3 if len(a) > 5 else 0]) + m)
+    if fn == 15:
+        m = oracle(11, [a[0], a[2]], out)
+        return m and ('sources %r: ' % [[S(k) for k, _ in x] for x in split_sources(e2e_norm(a[0]), a[1])] + m)
     if fn in (1, 2, 3):
         ndb, (start,) = norm_spec(a[0], [a[1]])
         table = _table(ndb)
@@ -1047,6 +1139,36 @@ def gen(tier, rng):
     f5bib = [['k0', [0, [['crossref', 'k1']], []]], ['k1', [1, [['title', 'T1'], ['year', 'Y1'], ['note', 'N1']], []]]]
     yield ('pinned', 10, [f5bib, ['k0', 'k1'], 2, 0]); yield ('pinned', 10, [f5bib, ['*'], 1, 1])
     yield ('pinned', 10, [[['k0', [0, [['crossref', 'k0']], []]], ['k1', [1, [['crossref', 'k0'], ['note', 'N1']], []]]], ['k1', 'k0'], 2, 2])
+    # ---- the chain distributed over 2-3 sources (children before parents ACROSS sources), explicit citation lists,
+    #      through the multi-source entry points of both engines and through one Parser over several sources
+    midx = 0
+    for L in (1, 2, 3):
+        n = L + 2                                              # chain k0..kL plus an unrelated entry
+        splits = [[c] for c in range(1, n)] + [[c1, c2] for c1 in range(1, n) for c2 in range(c1 + 1, n)] + [[1, 1]]
+        for definer in [None] + list(range(L + 1)):
+            for mask in range(1 << L):
+                cits = ['k0'] + ['k%d' % j for j in range(1, L + 1) if (mask >> (j - 1)) & 1]
+                for cuts in splits:
+                    midx += 1
+                    if L == 3 and quick and midx % 2:
+                        continue
+                    db = []
+                    for i in range(L + 1):
+                        f = []
+                        if definer == i:
+                            f.append(['title', 'T%d' % i])
+                        if i == L:
+                            f.append(['year', 'Y%d' % i])
+                        if i < L:
+                            f.append(['crossref', 'k%d' % (i + 1)])
+                        db.append(['k%d' % i, [i, f, []]])
+                    db.append(['k%d' % (L + 1), [L + 1, [['note', 'N%d' % (L + 1)]], []]])
+                    cs = cits[::-1] if midx % 3 == 0 else cits
+                    yield ('multi_source', 14, [db, cuts, cs, 1 + midx % 2, midx % 4, midx % 3])
+                    if midx % 4 == 0:
+                        yield ('multi_source', 15, [db, cuts, [cs], midx // 4])
+    yield ('multi_source', 14, [[['k0', [0, [['crossref', 'k1']], []]], ['k1', [1, [['title', 'T1']], []]]], [1], ['*'], 2, 0, 1])
+    yield ('multi_source', 15, [[['k0', [0, [['crossref', 'k1']], []]], ['k1', [1, [['title', 'T1']], []]]], [1], [], 0])
     # ---- mutation_history: look-ups interleaved with edits on ONE set of live objects
     def hop(code, key='', fld='', val=None, n=0):
         return [code, key, fld, [] if val is None else [val], n]
@@ -1136,7 +1258,13 @@ def describe(fn, a):
     def ent(e):
         return {'object': e[0], 'fields': {S(k): S(v) for k, v in e[1]}, 'persons': {S(r): [S(p) for p in ps] for r, ps in e[2]}}
     d = {'function': FUNCS[fn][0], 'database': [[S(k), ent(e)] for k, e in a[0]]}
-    if fn == 13:
+    if fn in (14, 15):
+        d['sources'] = [bib_text(x) for x in split_sources(e2e_norm(a[0]), a[1])]
+        if fn == 14:
+            d['citations'] = [S(c) for c in a[2]]; d['min_crossrefs'] = a[3]; d['python_style'] = _style(a, 4); d['entry_points'] = MULTI_MODES[a[5] % 3 if len(a) > 5 else 0]
+        else:
+            d['wanted_entries'] = [S(c) for c in a[2][0]] if a[2] else None
+    elif fn == 13:
         names = {0: 'lookup', 1: 'set_field', 2: 'del_field', 3: 'set_crossref', 4: 'new BibliographyData', 5: 'replace entry'}
         d['history'] = [[names.get(o[0], 'new BibliographyData'), S(o[1]), S(o[2]), S(o[3][0]) if o[3] else None, o[4]] for o in a[1]]
     elif fn == 12:
@@ -1283,6 +1411,8 @@ RULE = ('exhaustive: every cross-reference graph over n <= 3 entries (crossref o
         'empty values, roles without persons, citations incl. *, missing and repeated ones, min_crossrefs -1..3. filtered_chains: from .bib text, '
         'both engines reading the file filtered by the citations -- chains of length 0..3 x which ancestor defines the field x every citation list '
         '(child + any subset of ancestors, *) x min_crossrefs 1..3 x four stock styles, children first; the same through Parser(wanted_entries). '
+        'multi_source: the chain (length 1..3) cut into 2-3 consecutive sources in every way x defining ancestor x explicit citation lists, through Interpreter.run / format_from_strings, '
+        'format_from_files of both engines on real files, make_bibliography with \\bibdata{a,b} of both engines, and one Parser over several sources. '
         'mutation_history: look-ups interleaved with edits (set/delete field, set/remove crossref, replace an entry, new BibliographyData) on one set of live objects, '
         'every history of <= 3 operations over a 14-operation alphabet plus random histories of 4..13 operations, each look-up through _find_field / Field.value / field(). '
         'person_roles: chains 1..3 x every assignment of the role author x citation lists, BST field vs names() of the stock styles. long: chains and '
